@@ -47,6 +47,8 @@ def process(chk, stream, results):
 
 
 def gen_lines(rng, kind, n):
+    if kind == "mp:dropbusy":
+        return [mp.script_line(*mp.gen_drop_busy(rng)) for _ in range(n)]
     if kind.startswith("mp:"):   # several pools per process, literal option lists (ants_mp.py)
         return [mp.script_line(*mp.gen_script(rng, kind[3:])) for _ in range(n)]
     return [ac.script_line(*ac.gen_script(rng, kind)) for _ in range(n)]
